@@ -12,6 +12,8 @@
      B name param seed nin nout | sizes | params | inputs | labels      (all candidate mini-batch results)
      N name param T nin nhid nout | sizes | params | inputs | labels    (ErrorFunction on LinearModel >> LinearModel)
      Z zov thr dim | sizes | labels | preds | weights                   (ZeroOneLoss weighted eval)
+     A invert T | sizes | labels | scores                               (NegativeAUC: a=<q> | a=nan | EXC)
+     S sq ignore dim reuse | lens | labels | preds                      (SquaredLoss<Sequence,Sequence>; EXC = documented exception)
    Lines with real (non-rational) data run the float instantiation of the Section-polymorphic functions for
    ce, cev, huber, abs (L lines); all other real-data lines print "<kind> -". *)
 open C06_model
@@ -221,6 +223,26 @@ let handle l =
       let thr = parse_q hd.(2) and dim = int_of_string hd.(3) in
       let es = List.map2 (fun c p -> (nat_of_int c, p)) (isec 2) (rows dim (qsec 3)) in
       Printf.sprintf "Z z=%s" (qs (zow_eval thr (chunk (isec 1) es) (qsec 4)))
+    | "A" ->
+      let inv = hd.(1) = "1" in
+      let es = List.map2 (fun c s -> (nat_of_int c, s)) (isec 2) (qsec 3) in
+      (match nauc_eval inv (chunk (isec 1) es) with
+       | AucExc -> "A EXC"
+       | AucNaN -> "A a=nan"
+       | AucVal a -> "A a=" ^ qs a)
+    | "S" ->
+      (* the caller's gradient object: empty, or (reuse = 1) the result of an earlier call on other data (all ones, same shape) *)
+      let ign = nat_of_int (int_of_string hd.(2)) and dim = int_of_string hd.(3) and reuse = hd.(4) = "1" in
+      let lens = isec 1 in
+      let ls = chunk lens (rows dim (qsec 2)) and ps = chunk lens (rows dim (qsec 3)) in
+      let b = List.map2 (fun l p -> (l, p)) ls ps in
+      let q1 = { qnum = Zpos XH; qden = XH } in
+      let old = if reuse then List.map (fun l -> List.map (fun v -> List.map (fun _ -> q1) v) l) ls else [] in
+      (match seq_eval ign b, seq_evald ign old b with
+       | Some v, Some (dv, g) ->
+         Printf.sprintf "S v=%s dv=%s gn=%d gl=%s g=%s" (qs v) (qs dv) (List.length g)
+           (String.concat "," (List.map (fun sq -> string_of_int (List.length sq)) g)) (qv (List.concat (List.concat g)))
+       | _ -> "S EXC")
     | "N" ->
       let name = hd.(1) in
       (match table name (parse_q hd.(2)) with
